@@ -175,6 +175,33 @@ class Engine:
             self.roots.append(old)
         return True
 
+    def op_badreplace(self, pi, ki):
+        """replace_child (with deletion) called on the WRONG receiver: it has to fail, and a failing call discards nothing -
+        the registry stays as it was"""
+        ps = [n for n in self.nodes() if n.children]
+        if not ps:
+            return False
+        p = ps[pi % len(ps)]
+        old = p.children[ki % len(p.children)]
+        wrong = [n for n in self.nodes() if n is not p and old not in n.children]
+        if not wrong or not self.registered(old):
+            return False
+        recv = wrong[(pi + ki) % len(wrong)]
+        new = Node(old.name)
+        self.model[new.id] = new
+        self.roots.append(new)
+        try:
+            with time_limit(30):
+                recv.replace_child(old, new, delete_old=True)
+            self.flag("failing-replace-not-refused", f"replace_child on a node that does not list {old.name!r} returned normally")
+        except ValueError:
+            pass
+        except CaseTimeout:
+            self.flag("replace_child-does-not-terminate", "no return within 30 s")
+        except Exception as e:  # noqa
+            self.flag(f"replace_child-raises:{type(e).__name__}", f"{type(e).__name__}: {e}"[:200])
+        return True
+
     def op_prune(self, ri, strict):
         # any registered tree, also one whose root is itself an unknown element (it is then the pruned subtree), and
         # - every third time - an inner node of a tree as the starting point
@@ -357,6 +384,10 @@ class RegistryMachine(RuleBasedStateMachine):
     @rule(p=st.integers(0, 300), k=st.integers(0, 10), delete=st.booleans())
     def replace(self, p, k, delete):
         self.do(["replace", p, k, delete])
+
+    @rule(p=st.integers(0, 300), k=st.integers(0, 10))
+    def badreplace(self, p, k):
+        self.do(["badreplace", p, k])
 
     @rule(r=st.integers(0, 30), strict=st.booleans())
     def prune(self, r, strict):
